@@ -264,10 +264,22 @@ impl Channel {
 
         chan.busy = false;
         chan.transmission_finish_time = SimTime::ZERO;
+        drop(chan);
 
-        if let Some((msg, next_gate)) = chan.buffer.dequeue() {
+        // Start queued messages as long as the channel stays idle. A message whose
+        // transmission time is zero does not make the channel busy (and thus schedules
+        // no further unbusy notification), so the next queued message must be started
+        // right away, otherwise it would remain in the queue forever.
+        loop {
+            let mut chan = self.inner.write().unwrap();
+            if chan.busy {
+                break;
+            }
+            let Some((msg, next_gate)) = chan.buffer.dequeue() else {
+                break;
+            };
             drop(chan);
-            self.send_message(msg, next_gate, sink);
+            self.clone().send_message(msg, next_gate, sink);
         }
     }
 }
